@@ -63,6 +63,9 @@ pub enum Outcome {
     Abort(u8),
     /// Reservation: status information without receipt number
     NoReceipt,
+    /// a print line and a status information (carrying a receipt number where the exchange has one) and only then
+    /// 06 1E <code>: the usual script of a declined payment. Nothing is reserved / reversed.
+    AbortAfterStatus(u8),
     /// system info reports another device id
     WrongSerial,
 }
@@ -331,8 +334,16 @@ fn respond(g: &mut Sim, kind: Kind, apdu: &[u8], d: &Directive) -> Vec<Vec<u8>> 
         r.extend(g.chatter.iter().cloned());
     }
     if let Outcome::Abort(c) = d.outcome {
-        if kind == Kind::Reservation {
-            // nothing is reserved
+        r.push(abort_packet(c));
+        return r;
+    }
+    if let Outcome::AbortAfterStatus(c) = d.outcome {
+        if matches!(kind, Kind::Reservation | Kind::PartialReversal | Kind::PreAuthReversal | Kind::EndOfDay) {
+            // 06 D1: print line "DECLINED"
+            r.push(vec![0x06, 0xd1, 0x09, 0x00, b'D', b'E', b'C', b'L', b'I', b'N', b'E', b'D']);
+            let rc = g.receipt_seq[g.receipts_issued % g.receipt_seq.len()];
+            let si = make(&t, "StatusInformation", &[("result_code", opt_u(Some(c as u64))), ("amount", opt_u(Some(1))), ("receipt_no", opt_u(Some(rc))), ("trace_number", opt_u(Some(7)))]);
+            r.push(enc(&t, "StatusInformation", &si));
         }
         r.push(abort_packet(c));
         return r;
